@@ -18,13 +18,39 @@ Re-extracted from /repo's sources on every run of the C14 check:
   parameter); the set of calls must be exactly the expected one and each `self.attr`
   argument yields a `wrap_*` flag (wrapped in np.ascontiguousarray at the call site?).
 
-Anything unexpected raises TablesError: the check then reports the obligations of C14 as
-broken instead of silently proving theorems about a model of different code.
+Everything else is PINNED (harness/tables_pin.py):
+
+* every method of every class of colliders.py and of mesh.MeshHillClimbingSupportFunction is
+  compared as a whole (signature, decorators, body; docstrings / comments / blank lines
+  normalised away, the flagged np.ascontiguousarray wrappers removed, make_artist bodies left
+  open) with the texts REFERENCE_COLLIDERS / REFERENCE_MESH below = the code that
+  Model/Colliders.v transliterates: the QUERY methods (support_function / aabb / center /
+  first_vertex / collider2origin) and the constructors too, not only update_pose.  Unknown
+  classes (a new subclass inherits update_pose), unknown or missing methods, class-level
+  statements, changed bases, unknown top-level statements, names bound twice: refused;
+* the callees of the pinned methods: containment.*_aabb must be undecorated (interpreted numpy:
+  every layout accepted - a `[::1]` signature on sphere_aabb would re-create defect F15 on
+  `self.c`); a conservative purity scan of the transitive closure of all callees (the compiled
+  entry points and what they call, containment.*_aabb and what they call) refuses stores into
+  (views of) arguments or non-local objects, in-place operators on them, out= arguments, calls
+  of functions outside a short list of layout-insensitive numpy functions, and calls of
+  compiled functions from interpreted callees other than box_aabb -> convert_box_to_vertices.
+
+Anything unexpected raises TablesError - also when the reader itself trips over the source:
+the check then reports ALL obligations of C14 as broken (nothing counted as discharged, the
+correspondence run marked as a run of a stale model) instead of silently proving theorems
+about a model of different code.
+
+Limits: syntactic pins (a harmless refactoring is refused too); collider subclasses defined in
+OTHER modules, monkeypatching from other modules, numpy / numba themselves and the numerical
+content of the kernels (C03 / C04) are not seen; the purity scan is flow-insensitive and
+trusts its list of numpy functions.
 """
 import ast
 from pathlib import Path
 
 from .tables import TablesError
+from . import tables_pin as tp
 
 ENTRY_POINTS = {
     "geometry.py": ["convert_box_to_vertices", "support_function_cylinder", "support_function_capsule",
@@ -87,9 +113,14 @@ def read_signatures(repo):
     for fname, fns in ENTRY_POINTS.items():
         tree = ast.parse((Path(repo) / "distance3d" / fname).read_text())
         found = {n.name: n for n in tree.body if isinstance(n, ast.FunctionDef)}
+        binds = tp.top_level_bindings(tree)
+        if "*" in binds:
+            raise TablesError(f"{fname}: star import")
         for fn in fns:
             if fn not in found:
                 raise TablesError(f"{fname}: function {fn} not found")
+            if binds.get(fn, 0) != 1:
+                raise TablesError(f"{fname}: {fn} is bound {binds.get(fn, 0)} times at module level, expected once")
             node = found[fn]
             nargs = len(node.args.args)
             if node.args.vararg or node.args.kwarg or node.args.kwonlyargs:
@@ -257,8 +288,9 @@ def _rooted_in_self(node):
     return isinstance(node, ast.Name) and node.id == "self"
 
 
-def _classes(path):
-    tree = ast.parse(Path(path).read_text())
+def _classes(path, tree=None):
+    if tree is None:
+        tree = ast.parse(Path(path).read_text())
     out = {}
     for n in tree.body:
         if isinstance(n, ast.ClassDef):
@@ -339,8 +371,12 @@ def _split_args(s):
 
 
 def read_colliders(repo):
-    cl = _classes(Path(repo) / "distance3d" / "colliders.py")
+    ctree = ast.parse((Path(repo) / "distance3d" / "colliders.py").read_text())
+    cl = _classes(None, ctree)
     upd_contig = {}
+    for (cls, meth) in list(EXPECTED_CALLS) + [(c, "update_pose") for c in EXPECTED_UPDATE]:
+        if cls not in cl or meth not in cl[cls]:
+            raise TablesError(f"colliders.py: {cls}.{meth} not found")
     for cls, exp in EXPECTED_UPDATE.items():
         if cls not in cl or "update_pose" not in cl[cls]:
             raise TablesError(f"colliders.py: {cls}.update_pose not found")
@@ -404,7 +440,800 @@ def read_colliders(repo):
         raise TablesError("containment.box_aabb has an unexpected shape")
     if "box_aabb(self.box2origin, self.size)" not in ast.unparse(cl["Box"]["aabb"]):
         raise TablesError("Box.aabb does not call box_aabb(self.box2origin, self.size)")
+    # whole-body pins: every method of every class against the text the model transliterates
+    _pin_colliders(repo, ctree, cl)
+    _pin_mesh(repo)
+    # callees of the pinned methods: signatures / absence of signatures, no side effects, no unknown callee
+    _check_callees(repo)
     return upd_contig, wrap
+
+
+# ------------------------------------------------------------------ whole-body pins
+# method of the source -> definition of coq/theories/Model/Colliders.v that transliterates it
+MODEL_OF = {"__init__": "construct", "update_pose": "update_pose", "support_function": "support", "aabb": "aabb",
+            "center": "center", "first_vertex": "first_vertex", "collider2origin": "collider2origin",
+            "__call__": "support (MeshGraph arm: the functor)", "make_artist": "(not modelled: visualisation only)"}
+
+
+def _peel(node):
+    """np.ascontiguousarray(x) / x.copy() (nested) -> x"""
+    while isinstance(node, ast.Call):
+        if isinstance(node.func, ast.Attribute) and node.func.attr == "copy" and not node.args and not node.keywords:
+            node = node.func.value
+            continue
+        try:
+            fn = _dotted(node.func)
+        except TablesError:
+            break
+        if fn == "np.ascontiguousarray" and len(node.args) == 1 and not node.keywords:
+            node = node.args[0]
+            continue
+        break
+    return node
+
+
+def _call_nodes(fn):
+    out = []
+    for node in ast.walk(fn):
+        if isinstance(node, ast.Call):
+            try:
+                nm = _dotted(node.func)
+            except TablesError:
+                continue
+            if nm in ALL_FNS:
+                out.append((node.lineno, node.col_offset, node))
+    return [x[2] for x in sorted(out, key=lambda x: x[:2])]
+
+
+def _flag_sites(classes):
+    """The wrapper positions whose presence is extracted as a flag (upd_*_contig / wrap_*): [(outer, inner)]."""
+    unwrap = []
+    for (cls, attr) in VIEW_ATTRS:
+        for st in classes[cls]["update_pose"].body:
+            if isinstance(st, ast.Assign) and len(st.targets) == 1 and _is_self_attr(st.targets[0]) \
+                    and st.targets[0].attr == attr and _peel(st.value) is not st.value:
+                unwrap.append((st.value, _peel(st.value)))
+    for (cls, meth), exps in EXPECTED_CALLS.items():
+        for call, exp in zip(_call_nodes(classes[cls][meth]), exps):
+            pats = _split_args(exp[5:-1])[1:]
+            for a, pat in zip(call.args, pats):
+                if pat.startswith("?") and _peel(a) is not a:
+                    unwrap.append((a, _peel(a)))
+    return unwrap
+
+
+def _pin_class(fname, node, ref, unwrap):
+    cname = node.name
+    if not isinstance(ref, ast.ClassDef):
+        raise TablesError(f"{fname}: reader bug: no reference class {cname}")
+    head = lambda c: tp.dump(ast.ClassDef(name=c.name, bases=c.bases, keywords=c.keywords, body=[ast.Pass()],  # noqa: E731
+                                          decorator_list=c.decorator_list, type_params=getattr(c, "type_params", [])))
+    if head(tp.normalise(node)) != head(ref):
+        raise TablesError(f"{fname}: class {cname}: bases / keywords / decorators differ from the modelled class "
+                          f"(`class {cname}({', '.join(ast.unparse(b) for b in node.bases)})`)")
+    refm = {m.name: m for m in ref.body if isinstance(m, ast.FunctionDef)}
+    seen = set()
+    for st in node.body:
+        if isinstance(st, ast.Expr) and isinstance(st.value, ast.Constant) or isinstance(st, ast.Pass):
+            continue
+        if not isinstance(st, ast.FunctionDef):
+            raise TablesError(f"{fname}: class {cname}: unmodelled class-level statement `{ast.unparse(st)[:80]}`")
+        if st.name in seen:
+            raise TablesError(f"{fname}: {cname}.{st.name} defined twice")
+        seen.add(st.name)
+        if st.name not in refm:
+            raise TablesError(f"{fname}: unmodelled method {cname}.{st.name} (Model/Colliders.v has no counterpart; a new "
+                              f"method may override attribute access or be inherited by the modelled classes)")
+        holes = list(st.body) if st.name == "make_artist" else []
+        tp.pin(st, refm[st.name], f"{fname}: {cname}.{st.name}",
+               f"Model/Colliders.v {MODEL_OF.get(st.name, '?')} ({cname})", holes, unwrap)
+    missing = sorted(set(refm) - seen)
+    if missing:
+        raise TablesError(f"{fname}: class {cname}: methods {missing} are gone (the class now inherits them)")
+
+
+def _pin_colliders(repo, tree, classes):
+    ref = tp.parse_reference(REFERENCE_COLLIDERS)
+    unwrap = _flag_sites(classes)
+    seen = set()
+    for st in tree.body:
+        if isinstance(st, ast.Expr) and isinstance(st.value, ast.Constant):
+            continue
+        if isinstance(st, ast.ClassDef):
+            if st.name not in ref or st.name in seen:
+                raise TablesError(f"colliders.py: unmodelled class {st.name} (bases {[ast.unparse(b) for b in st.bases]}): "
+                                  f"Model/Colliders.v has no constructor for it")
+            _pin_class("colliders.py", st, ref[st.name], unwrap)
+            seen.add(st.name)
+            continue
+        key = tp.text(tp.normalise(st))
+        if isinstance(st, (ast.FunctionDef, ast.AsyncFunctionDef)) or key not in ref or key in seen:
+            raise TablesError(f"colliders.py: unexpected top-level statement `{key[:100]}`")
+        seen.add(key)
+    if seen != set(ref):
+        raise TablesError(f"colliders.py: missing top-level items {sorted(set(ref) - seen)}")
+    binds = tp.top_level_bindings(tree)
+    for nm in binds:
+        if binds[nm] != 1:
+            raise TablesError(f"colliders.py: `{nm}` is bound {binds[nm]} times at module level")
+    # make_artist is not modelled (and not pinned): it may only touch the artist
+    for cls, meths in classes.items():
+        fn = meths.get("make_artist")
+        if fn is not None and set(_state_writes(fn)) - {"self.artist_"}:
+            raise TablesError(f"colliders.py: {cls}.make_artist writes {sorted(set(_state_writes(fn)))}")
+
+
+def _pin_mesh(repo):
+    tree = ast.parse((Path(repo) / "distance3d" / "mesh.py").read_text())
+    ref = tp.parse_reference(REFERENCE_MESH)
+    cls = [n for n in tree.body if isinstance(n, ast.ClassDef) and n.name == "MeshHillClimbingSupportFunction"]
+    if len(cls) != 1:
+        raise TablesError("mesh.py: expected exactly one class MeshHillClimbingSupportFunction")
+    _pin_class("mesh.py", cls[0], ref["MeshHillClimbingSupportFunction"], [])
+    binds = tp.top_level_bindings(tree)
+    for nm in ("MeshHillClimbingSupportFunction", "hill_climb_mesh_extreme", "np", "numba"):
+        if binds.get(nm, 0) != 1:
+            raise TablesError(f"mesh.py: `{nm}` is bound {binds.get(nm, 0)} times at module level, expected once")
+    if "*" in binds:
+        raise TablesError("mesh.py: star import")
+
+
+# ------------------------------------------------------------------ callees: layout-insensitive and side-effect free
+# The model treats every kernel as a FUNCTION OF THE DATA of its arguments: the interpreted callees of the query
+# methods (containment.*_aabb) accept every layout and never raise TypeError; no callee modifies an argument or
+# keeps state.  Checked here syntactically and conservatively on the transitive closure of the callees.
+AABB_CALLEES = ["axis_aligned_bounding_box", "sphere_aabb", "box_aabb", "cylinder_aabb", "capsule_aabb",
+                "ellipsoid_aabb", "cone_aabb", "disk_aabb", "ellipse_aabb"]
+CALLEE_MODULES = ["geometry.py", "utils.py", "containment.py", "mesh.py"]
+FRESH_CALLS = {"np.array", "np.dot", "np.linalg.norm", "np.sqrt", "np.abs", "np.min", "np.max", "np.minimum",
+               "np.maximum", "np.column_stack", "np.copy", "np.cross", "np.mean", "np.eye", "np.zeros", "np.empty",
+               "np.ones", "math.sqrt", "abs", "len", "range", "float", "int", "min", "max"}
+ALIAS_CALLS = {"np.ascontiguousarray", "np.asarray"}      # may return the argument itself; do not modify it
+PURE_METHODS = {"dot", "copy"}
+MODELLED_COMPILED_IN_INTERPRETED = {("box_aabb", "convert_box_to_vertices")}   # Model/Colliders.v aabb (Box)
+
+
+def _root_name(node):
+    while isinstance(node, (ast.Attribute, ast.Subscript, ast.Starred)):
+        node = node.value
+    return node.id if isinstance(node, ast.Name) else None
+
+
+class _Callees:
+    def __init__(self, repo):
+        self.defs, self.imports = {}, {}
+        for fname in CALLEE_MODULES:
+            tree = ast.parse((Path(repo) / "distance3d" / fname).read_text())
+            mod = fname[:-3]
+            self.defs[mod] = {n.name: n for n in tree.body if isinstance(n, ast.FunctionDef)}
+            imp = {}
+            for n in tree.body:
+                if isinstance(n, ast.ImportFrom) and n.level == 1 and n.module in [m[:-3] for m in CALLEE_MODULES]:
+                    for a in n.names:
+                        imp[a.asname or a.name] = (n.module, a.name)
+            self.imports[mod] = imp
+            binds = tp.top_level_bindings(tree)
+            for nm in ("np", "math", "numba"):
+                if binds.get(nm, 0) > 1:
+                    raise TablesError(f"{fname}: `{nm}` is bound {binds[nm]} times at module level")
+        self.done = {}
+
+    def resolve(self, mod, name):
+        if name in self.defs[mod]:
+            return mod, name
+        if name in self.imports[mod]:
+            m2, n2 = self.imports[mod][name]
+            if n2 in self.defs.get(m2, {}):
+                return m2, n2
+        return None
+
+    def compiled(self, mod, name):
+        fn = self.defs[mod][name]
+        if not fn.decorator_list:
+            return False
+        for d in fn.decorator_list:
+            f = d.func if isinstance(d, ast.Call) else d
+            if _dotted(f) not in ("numba.njit", "numba.jit"):
+                raise TablesError(f"{mod}.{name}: unknown decorator `{ast.unparse(d)[:60]}`")
+        return True
+
+    def scan(self, mod, name):
+        """Raise TablesError unless mod.name (and everything it calls) provably leaves its arguments and all
+        non-local objects alone and calls only known layout-insensitive functions."""
+        if (mod, name) in self.done:
+            return
+        self.done[(mod, name)] = True
+        fn = self.defs[mod][name]
+        what = f"{mod}.{name}"
+        is_compiled = self.compiled(mod, name)
+        a = fn.args
+        params = {x.arg for x in a.posonlyargs + a.args + a.kwonlyargs} | ({a.vararg.arg} if a.vararg else set()) \
+            | ({a.kwarg.arg} if a.kwarg else set())
+        local = set(params)
+        if a.defaults or a.kw_defaults:
+            raise TablesError(f"{what}: default arguments are outside what the purity scan understands")
+        body_nodes = [n for st in fn.body for n in ast.walk(st)]
+        for n in body_nodes:
+            if isinstance(n, (ast.FunctionDef, ast.AsyncFunctionDef, ast.Lambda, ast.ClassDef, ast.Global,
+                                              ast.Nonlocal, ast.Yield, ast.YieldFrom, ast.Await, ast.NamedExpr,
+                                              ast.With, ast.Try, ast.Import, ast.ImportFrom)):
+                raise TablesError(f"{what}: construct {type(n).__name__} is outside what the purity scan understands")
+            if isinstance(n, ast.Name) and isinstance(n.ctx, (ast.Store, ast.Del)):
+                local.add(n.id)
+        tainted = set(params)
+
+        def may_alias(e):
+            if isinstance(e, ast.Name):
+                return e.id in tainted
+            if isinstance(e, (ast.Constant, ast.BinOp, ast.UnaryOp, ast.Compare, ast.BoolOp)):
+                return False
+            if isinstance(e, (ast.Subscript, ast.Attribute, ast.Starred)):
+                return may_alias(e.value)
+            if isinstance(e, (ast.Tuple, ast.List)):
+                return any(may_alias(x) for x in e.elts)
+            if isinstance(e, ast.IfExp):
+                return may_alias(e.body) or may_alias(e.orelse)
+            if isinstance(e, ast.Call):
+                try:
+                    nm = _dotted(e.func)
+                except TablesError:
+                    nm = None
+                if nm in FRESH_CALLS:
+                    return False
+                if isinstance(e.func, ast.Attribute) and e.func.attr in PURE_METHODS and nm not in ALIAS_CALLS \
+                        and not (nm or "").startswith(("np.", "math.")):
+                    return False
+            return any(isinstance(x, ast.Name) and x.id in tainted for x in ast.walk(e))
+
+        def names(t):
+            return [m.id for m in ast.walk(t) if isinstance(m, ast.Name) and isinstance(m.ctx, ast.Store)]
+
+        changed = True
+        while changed:
+            changed = False
+            for n in body_nodes:
+                new = []
+                if isinstance(n, ast.Assign) and may_alias(n.value):
+                    new = [x for t in n.targets if not isinstance(t, (ast.Subscript, ast.Attribute)) for x in names(t)]
+                elif isinstance(n, ast.AnnAssign) and n.value is not None and may_alias(n.value):
+                    new = names(n.target)
+                elif isinstance(n, ast.For) and may_alias(n.iter):
+                    new = names(n.target)
+                elif isinstance(n, ast.comprehension) and may_alias(n.iter):
+                    new = names(n.target)
+                for x in new:
+                    if x not in tainted:
+                        tainted.add(x)
+                        changed = True
+
+        def check_store(t, aug):
+            if isinstance(t, (ast.Tuple, ast.List)):
+                for x in t.elts:
+                    check_store(x, aug)
+                return
+            if isinstance(t, ast.Name):
+                if aug and t.id in tainted:
+                    raise TablesError(f"{what}: in-place update of `{t.id}`, which may be (a view of) an argument: the "
+                                      f"model's kernels do not modify the collider's attributes")
+                return
+            r = _root_name(t)
+            if r is None or r in tainted or r not in local:
+                raise TablesError(f"{what}: store into `{ast.unparse(t)}`, which may be (a view of) an argument or a "
+                                  f"non-local object: the model's kernels are functions of the data without side effects")
+
+        for n in body_nodes:
+            if isinstance(n, ast.Assign):
+                for t in n.targets:
+                    check_store(t, False)
+            elif isinstance(n, ast.AugAssign):
+                check_store(n.target, True)
+            elif isinstance(n, ast.AnnAssign):
+                check_store(n.target, False)
+            elif isinstance(n, ast.Delete):
+                for t in n.targets:
+                    check_store(t, True)
+            elif isinstance(n, ast.Call):
+                if any(k.arg in ("out", "where") or k.arg is None for k in n.keywords):
+                    raise TablesError(f"{what}: call with out= / where= / **kwargs: `{ast.unparse(n)[:80]}`")
+                try:
+                    nm = _dotted(n.func)
+                except TablesError:
+                    nm = None
+                if nm in FRESH_CALLS or nm in ALIAS_CALLS:
+                    continue
+                if isinstance(n.func, ast.Attribute):
+                    if n.func.attr in PURE_METHODS and not (nm or "").startswith(("np.", "math.", "numba.")):
+                        continue
+                    raise TablesError(f"{what}: call `{ast.unparse(n.func)}(...)` is not on the list of functions known to "
+                                      f"be layout-insensitive and free of side effects")
+                if isinstance(n.func, ast.Name):
+                    tgt = self.resolve(mod, n.func.id)
+                    if tgt is None or n.func.id in local:
+                        raise TablesError(f"{what}: call of unknown function `{n.func.id}`")
+                    if not is_compiled and self.compiled(*tgt) and (name, tgt[1]) not in MODELLED_COMPILED_IN_INTERPRETED:
+                        raise TablesError(f"{what}: interpreted code calls the compiled function {tgt[0]}.{tgt[1]}: a declared "
+                                          f"numba signature there makes the call layout-sensitive (defect F15) and "
+                                          f"Model/Colliders.v has no such call")
+                    self.scan(*tgt)
+                    continue
+                raise TablesError(f"{what}: call through an expression `{ast.unparse(n.func)[:60]}`")
+
+
+def _check_callees(repo):
+    c = _Callees(repo)
+    for fname, fns in ENTRY_POINTS.items():
+        for fn in fns:
+            c.scan(fname[:-3], fn)
+    for fn in AABB_CALLEES:
+        if fn not in c.defs["containment"]:
+            raise TablesError(f"containment.py: function {fn} not found")
+        node = c.defs["containment"][fn]
+        if node.decorator_list:
+            raise TablesError(f"containment.{fn} has a decorator (`{ast.unparse(node.decorator_list[0])[:70]}`): "
+                              f"Model/Colliders.v treats it as interpreted numpy code that accepts every array layout (a "
+                              f"declared `[::1]` signature would raise TypeError on the views stored by update_pose: F15)")
+        c.scan("containment", fn)
+    tree = ast.parse((Path(repo) / "distance3d" / "containment.py").read_text())
+    binds = tp.top_level_bindings(tree)
+    for fn in list({n for (m, n) in c.done if m == "containment"}):
+        if binds.get(fn, 0) != 1:
+            raise TablesError(f"containment.py: `{fn}` is bound {binds.get(fn, 0)} times at module level, expected once")
+    if "*" in binds:
+        raise TablesError("containment.py: star import")
+
+
+# The code that Model/Colliders.v transliterates, normalised (no docstrings / comments).  `__TABLE__` = body of
+# make_artist (visualisation, not modelled, only checked to write nothing but self.artist_).  The optional
+# np.ascontiguousarray(...) / .copy() wrappers at the five update sites and thirteen call-site arguments that
+# Gen/CollidersTables.v reports as flags are REMOVED before the comparison (they are data for the proof); everything
+# else must be equal to this text.  Regenerate with
+#   /venv/bin/python -m harness.tables_c14 --print-reference      (and re-audit Model/Colliders.v against the new text!)
+REFERENCE_COLLIDERS = r"""
+import abc
+
+import numpy as np
+
+from .geometry import support_function_capsule, support_function_cylinder, convert_box_to_vertices, support_function_ellipsoid, support_function_sphere, support_function_cone, support_function_disk, support_function_ellipse
+
+from .containment import axis_aligned_bounding_box, sphere_aabb, box_aabb, cylinder_aabb, capsule_aabb, ellipsoid_aabb, cone_aabb, disk_aabb, ellipse_aabb
+
+from .mesh import MeshHillClimbingSupportFunction
+
+from .utils import plane_basis_from_normal, norm_vector
+
+class ConvexCollider(abc.ABC):
+
+    def __init__(self, artist=None):
+        self.artist_ = artist
+
+    @abc.abstractmethod
+    def make_artist(self, c=None):
+        __TABLE__
+
+    @abc.abstractmethod
+    def first_vertex(self):
+        pass
+
+    @abc.abstractmethod
+    def support_function(self, search_direction):
+        pass
+
+    @abc.abstractmethod
+    def center(self):
+        pass
+
+    @abc.abstractmethod
+    def update_pose(self, pose):
+        pass
+
+    @abc.abstractmethod
+    def aabb(self):
+        pass
+
+    @abc.abstractmethod
+    def collider2origin(self):
+        pass
+
+class ConvexHullVertices(ConvexCollider):
+
+    def __init__(self, vertices, artist=None):
+        super(ConvexHullVertices, self).__init__(artist)
+        self.vertices = vertices
+
+    def make_artist(self, c=None):
+        __TABLE__
+
+    def first_vertex(self):
+        return self.vertices[0]
+
+    def support_function(self, search_direction):
+        return self.vertices[np.argmax(self.vertices.dot(search_direction))]
+
+    def center(self):
+        return np.mean(self.vertices, axis=0)
+
+    def update_pose(self, pose):
+        raise NotImplementedError('update_pose is not implemented!')
+
+    def aabb(self):
+        return np.array(axis_aligned_bounding_box(self.vertices)).T
+
+    def collider2origin(self):
+        return np.eye(4)
+
+class Box(ConvexHullVertices):
+
+    def __init__(self, box2origin, size, artist=None):
+        super(Box, self).__init__(convert_box_to_vertices(box2origin, size), artist)
+        self.box2origin = box2origin
+        self.size = size
+
+    def make_artist(self, c=None):
+        __TABLE__
+
+    def center(self):
+        return self.box2origin[:3, 3]
+
+    def update_pose(self, pose):
+        self.box2origin = pose
+        self.vertices = convert_box_to_vertices(pose, self.size)
+        if self.artist_ is not None:
+            self.artist_.set_data(pose)
+
+    def aabb(self):
+        return np.array(box_aabb(self.box2origin, self.size)).T
+
+    def collider2origin(self):
+        return self.box2origin
+
+class MeshGraph(ConvexCollider):
+
+    def __init__(self, mesh2origin, vertices, triangles, artist=None):
+        super(MeshGraph, self).__init__(artist)
+        self.mesh2origin = mesh2origin
+        self.vertices = vertices
+        self.triangles = triangles
+        self._support_function = MeshHillClimbingSupportFunction(mesh2origin, vertices, triangles)
+
+    def make_artist(self, c=None):
+        __TABLE__
+
+    def first_vertex(self):
+        return self.mesh2origin[:3, 3] + np.dot(self.mesh2origin[:3, :3], self.vertices[0])
+
+    def support_function(self, search_direction):
+        return self._support_function(search_direction)[1]
+
+    def center(self):
+        return self.mesh2origin[:3, 3] + np.dot(self.mesh2origin[:3, :3], np.mean(self.vertices, axis=0))
+
+    def update_pose(self, mesh2origin):
+        self.mesh2origin = mesh2origin
+        self._support_function.update_pose(mesh2origin)
+        if self.artist_ is not None:
+            self.artist_.set_data(mesh2origin)
+
+    def aabb(self):
+        return np.array(axis_aligned_bounding_box(self.mesh2origin[np.newaxis, :3, 3] + np.dot(self.vertices, self.mesh2origin[:3, :3].T))).T
+
+    def collider2origin(self):
+        return self.mesh2origin
+
+class Sphere(ConvexCollider):
+
+    def __init__(self, center, radius, artist=None):
+        super(Sphere, self).__init__(artist)
+        self.c = center
+        self.radius = radius
+
+    def make_artist(self, c=None):
+        __TABLE__
+
+    def center(self):
+        return self.c
+
+    def first_vertex(self):
+        return self.c + np.array([0, 0, self.radius], dtype=float)
+
+    def support_function(self, search_direction):
+        return support_function_sphere(search_direction, self.c, self.radius)
+
+    def update_pose(self, pose):
+        self.c = pose[:3, 3]
+        if self.artist_ is not None:
+            self.artist_.set_data(pose)
+
+    def aabb(self):
+        return np.array(sphere_aabb(self.c, self.radius)).T
+
+    def collider2origin(self):
+        sphere2origin = np.eye(4)
+        sphere2origin[:3, 3] = self.c
+        return sphere2origin
+
+class Capsule(ConvexCollider):
+
+    def __init__(self, capsule2origin, radius, height, artist=None):
+        super(Capsule, self).__init__(artist)
+        self.capsule2origin = capsule2origin
+        self.radius = radius
+        self.height = height
+
+    def make_artist(self, c=None):
+        __TABLE__
+
+    def center(self):
+        return self.capsule2origin[:3, 3]
+
+    def first_vertex(self):
+        return self.capsule2origin[:3, 3] - (self.radius + 0.5 * self.height) * self.capsule2origin[:3, 2]
+
+    def support_function(self, search_direction):
+        return support_function_capsule(search_direction, self.capsule2origin, self.radius, self.height)
+
+    def update_pose(self, pose):
+        self.capsule2origin = pose
+        if self.artist_ is not None:
+            self.artist_.set_data(pose)
+
+    def aabb(self):
+        return np.array(capsule_aabb(self.capsule2origin, self.radius, self.height)).T
+
+    def collider2origin(self):
+        return self.capsule2origin
+
+class Ellipsoid(ConvexCollider):
+
+    def __init__(self, ellipsoid2origin, radii, artist=None):
+        super(Ellipsoid, self).__init__(artist)
+        self.ellipsoid2origin = ellipsoid2origin
+        self.radii = radii
+
+    def make_artist(self, c=None):
+        __TABLE__
+
+    def center(self):
+        return self.ellipsoid2origin[:3, 3]
+
+    def first_vertex(self):
+        return self.ellipsoid2origin[:3, 3] + self.radii[2] * self.ellipsoid2origin[:3, 2]
+
+    def support_function(self, search_direction):
+        return support_function_ellipsoid(search_direction, self.ellipsoid2origin, self.radii)
+
+    def update_pose(self, pose):
+        self.ellipsoid2origin = pose
+        if self.artist_ is not None:
+            self.artist_.set_data(pose)
+
+    def aabb(self):
+        return np.array(ellipsoid_aabb(self.ellipsoid2origin, self.radii)).T
+
+    def collider2origin(self):
+        return self.ellipsoid2origin
+
+class Cylinder(ConvexCollider):
+
+    def __init__(self, cylinder2origin, radius, length, artist=None):
+        super(Cylinder, self).__init__(artist)
+        self.cylinder2origin = cylinder2origin
+        self.radius = radius
+        self.length = length
+
+    def make_artist(self, c=None):
+        __TABLE__
+
+    def center(self):
+        return self.cylinder2origin[:3, 3]
+
+    def first_vertex(self):
+        return self.cylinder2origin[:3, 3] + 0.5 * self.length * self.cylinder2origin[:3, 2]
+
+    def support_function(self, search_direction):
+        return support_function_cylinder(search_direction, self.cylinder2origin, self.radius, self.length)
+
+    def update_pose(self, pose):
+        self.cylinder2origin = pose
+        if self.artist_ is not None:
+            self.artist_.set_data(pose)
+
+    def aabb(self):
+        return np.array(cylinder_aabb(self.cylinder2origin, self.radius, self.length)).T
+
+    def collider2origin(self):
+        return self.cylinder2origin
+
+class Disk(ConvexCollider):
+
+    def __init__(self, center, radius, normal, artist=None):
+        super(Disk, self).__init__(artist)
+        self.c = center
+        self.radius = radius
+        self.normal = normal
+
+    def make_artist(self, c=None):
+        __TABLE__
+
+    def center(self):
+        return self.c
+
+    def first_vertex(self):
+        x, _ = plane_basis_from_normal(self.normal)
+        return self.c + self.radius * x
+
+    def support_function(self, search_direction):
+        return support_function_disk(search_direction, self.c, self.radius, self.normal)
+
+    def update_pose(self, pose):
+        self.c = pose[:3, 3]
+        self.normal = pose[:3, 2]
+        if self.artist_ is not None:
+            self.artist_.set_data(pose)
+
+    def aabb(self):
+        return np.array(disk_aabb(self.c, self.radius, self.normal)).T
+
+    def collider2origin(self):
+        x, y = plane_basis_from_normal(self.normal)
+        disk2origin = np.eye(4)
+        disk2origin[:3, :3] = np.column_stack((x, y, self.normal))
+        disk2origin[:3, 3] = self.c
+        return disk2origin
+
+class Ellipse(ConvexCollider):
+
+    def __init__(self, center, axes, radii, artist=None):
+        super(Ellipse, self).__init__(artist)
+        self.c = center
+        self.axes = axes
+        self.radii = radii
+
+    def make_artist(self, c=None):
+        __TABLE__
+
+    def center(self):
+        return self.c
+
+    def first_vertex(self):
+        return self.c + self.axes[0] * self.radii[0]
+
+    def support_function(self, search_direction):
+        return support_function_ellipse(search_direction, self.c, self.axes, self.radii)
+
+    def update_pose(self, pose):
+        self.c = pose[:3, 3]
+        self.axes = pose[:3, :2].T
+        if self.artist_ is not None:
+            self.artist_.set_data(pose)
+
+    def aabb(self):
+        return np.array(ellipse_aabb(self.c, self.axes, self.radii)).T
+
+    def collider2origin(self):
+        ellipse2origin = np.eye(4)
+        ellipse2origin[:3, :2] = self.axes.T
+        ellipse2origin[:3, 2] = np.cross(self.axes[0], self.axes[1])
+        ellipse2origin[:3, 3] = self.c
+        return ellipse2origin
+
+class Cone(ConvexCollider):
+
+    def __init__(self, cone2origin, radius, height, artist=None):
+        super(Cone, self).__init__(artist)
+        self.cone2origin = cone2origin
+        self.radius = radius
+        self.height = height
+
+    def make_artist(self, c=None):
+        __TABLE__
+
+    def center(self):
+        return self.cone2origin[:3, 3] + 0.5 * self.height * self.cone2origin[:3, 2]
+
+    def first_vertex(self):
+        return self.cone2origin[:3, 3] + self.height * self.cone2origin[:3, 2]
+
+    def support_function(self, search_direction):
+        return support_function_cone(search_direction, self.cone2origin, self.radius, self.height)
+
+    def update_pose(self, pose):
+        self.cone2origin = pose
+        if self.artist_ is not None:
+            self.artist_.set_data(pose)
+
+    def aabb(self):
+        return np.array(cone_aabb(self.cone2origin, self.radius, self.height)).T
+
+    def collider2origin(self):
+        return self.cone2origin
+
+class Margin(ConvexCollider):
+
+    def __init__(self, collider, margin):
+        super(Margin, self).__init__(collider.artist_)
+        self.collider = collider
+        self.margin = margin
+
+    def make_artist(self, c=None):
+        __TABLE__
+
+    def first_vertex(self):
+        return self.collider.first_vertex()
+
+    def support_function(self, search_direction):
+        return self.collider.support_function(search_direction) + self.margin * norm_vector(search_direction)
+
+    def center(self):
+        return self.collider.center()
+
+    def update_pose(self, pose):
+        self.collider.update_pose(pose)
+
+    def aabb(self):
+        aabb = self.collider.aabb()
+        mins = aabb[:, 0] - self.margin
+        maxs = aabb[:, 1] + self.margin
+        return np.array([mins, maxs]).T
+
+    def collider2origin(self):
+        return self.collider.collider2origin()
+
+COLLIDERS = {'sphere': Sphere, 'ellipsoid': Ellipsoid, 'capsule': Capsule, 'disk': Disk, 'ellipse': Ellipse, 'cone': Cone, 'cylinder': Cylinder, 'box': Box, 'mesh': MeshGraph}
+"""
+
+REFERENCE_MESH = r"""
+class MeshHillClimbingSupportFunction:
+
+    def __init__(self, mesh2origin, vertices, triangles):
+        self.mesh2origin = mesh2origin
+        self.vertices = vertices
+        self.first_idx = np.min(triangles)
+        connections = {}
+        for i, j, k in triangles:
+            if i not in connections:
+                connections[i] = set()
+            if j not in connections:
+                connections[j] = set()
+            if k not in connections:
+                connections[k] = set()
+            connections[i].update((j, k))
+            connections[j].update((i, k))
+            connections[k].update((i, j))
+        used = np.unique(triangles).astype(int)
+        used_vertices = self.vertices[used]
+        self.shortcut_connections = used[np.array([np.argmax(used_vertices[:, 0]), np.argmax(used_vertices[:, 1]), np.argmax(used_vertices[:, 2]), np.argmin(used_vertices[:, 0]), np.argmin(used_vertices[:, 1]), np.argmin(used_vertices[:, 2])])]
+        self.connections = numba.typed.Dict.empty(numba.int64, numba.int64[:])
+        for idx, connected_indices in connections.items():
+            self.connections[idx] = np.fromiter(connected_indices, dtype=int, count=len(connected_indices))
+
+    def update_pose(self, mesh2origin):
+        self.mesh2origin = mesh2origin
+
+    def __call__(self, search_direction):
+        search_direction_in_mesh = np.dot(self.mesh2origin[:3, :3].T, search_direction)
+        idx = hill_climb_mesh_extreme(search_direction_in_mesh, self.first_idx, self.vertices, self.connections, self.shortcut_connections)
+        self.first_idx = idx
+        return (idx, self.mesh2origin[:3, 3] + np.dot(self.mesh2origin[:3, :3], self.vertices[idx]))
+"""
+
+
+def print_reference(repo):
+    tree = ast.parse((Path(repo) / "distance3d" / "colliders.py").read_text())
+    cl = _classes(None, tree)
+    unwrap = _flag_sites(cl)
+    out = []
+    for st in tree.body:
+        if isinstance(st, ast.Expr) and isinstance(st.value, ast.Constant):
+            continue
+        holes = []
+        if isinstance(st, ast.ClassDef):
+            for m in st.body:
+                if isinstance(m, ast.FunctionDef) and m.name == "make_artist":
+                    holes += m.body
+        out.append(tp.text(tp.normalise(st, holes, unwrap)))
+    mesh = ast.parse((Path(repo) / "distance3d" / "mesh.py").read_text())
+    mc = [n for n in mesh.body if isinstance(n, ast.ClassDef) and n.name == "MeshHillClimbingSupportFunction"][0]
+    return "\n\n".join(out), tp.text(tp.normalise(mc))
 
 
 # ------------------------------------------------------------------ output
@@ -418,6 +1247,7 @@ def _sig(s):
     return "Some [" + "; ".join("None" if a is None else f"Some {_b(a)}" for a in s) + "]"
 
 
+@tp.closed
 def render(repo):
     sigs = read_signatures(repo)
     upd, wrap = read_colliders(repo)
@@ -452,6 +1282,12 @@ def generate(repo, out):
 
 if __name__ == "__main__":
     import sys
-    sys.path.insert(0, str(Path(__file__).resolve().parent.parent))
     from harness.common import REPO, COQ
-    print("changed" if generate(REPO, COQ / "theories" / "Gen" / "CollidersTables.v") else "unchanged")
+    if "--print-reference" in sys.argv:
+        a, b = print_reference(REPO)
+        print(a + "\n@@@@\n" + b)
+    elif "--check" in sys.argv:         # read only, write nothing
+        render(REPO)
+        print("ok")
+    else:
+        print("changed" if generate(REPO, COQ / "theories" / "Gen" / "CollidersTables.v") else "unchanged")
